@@ -53,6 +53,7 @@ Q = {
     "tnx-l101":     cfg("TNx", 1, 2, 5, 1, 0, 1),
     "tthrow-l011":  cfg("TThrow", 1, 5, 2, 0, 1, 1),
     "int-l111":     cfg("int", 1, 0, 4, 1, 1, 1),
+    "tas-l000":     cfg("TAssignThrow", 1, 2, 5),
 }
 QTD = {
     "tnx-td":       cfg("TNx", 1, 2, 5, throwdef=1),
@@ -63,7 +64,7 @@ QTD = {
 def thorough_matrix():
     """A covering set for the thorough tier: every flavour, std + all 8 propagation combos x always-equal,
     N pairs (0,3) (2,5) (1,8) (4,4) (5,2) (3,0)."""
-    flavours = ["int", "TNx", "TThrow", "TMoveOnly", "TMoveOnlyThrow", "TCopyOnly", "TSwapThrow"]
+    flavours = ["int", "TNx", "TThrow", "TMoveOnly", "TMoveOnlyThrow", "TCopyOnly", "TSwapThrow", "TAssignThrow"]
     npairs = [(0, 3), (2, 5), (1, 8), (4, 4), (5, 2), (3, 0)]
     out = {}
     i = 0
@@ -292,7 +293,7 @@ def check_C06(tier, seed):
     mon = ["--monitors", "C06"]
     plan = []
     if tier == "quick":
-        for k in ("tthrow-l000", "tco-l010", "tmot-l001", "tsw-l110", "tnx-l000"):
+        for k in ("tthrow-l000", "tco-l010", "tmot-l001", "tsw-l110", "tnx-l000", "tas-l000"):
             plan += shards(Q[k], "asan-dbg", ["--mode", "fault", "--level", 0] + mon, 3)
         plan += shards(Q["tthrow-l011"], "asan-dbg", ["--mode", "fault", "--level", 0, "--pairs", 1, "--select", "alias"] + mon, 2)
         for k in ("tthrow-l000", "tthrow-std", "tnx-l000"):
@@ -558,7 +559,7 @@ def check_C18(tier, seed):
     plan = []
     fl = "asan-dbg" if tier == "quick" else "asan-dbg-o1"
     lvl = 0 if tier == "quick" else 1
-    ks = ("tnx-l000", "tthrow-l000", "tmo-l111", "tco-l010", "tsw-l110") if tier == "quick" else list(Q.keys())
+    ks = ("tnx-l000", "tthrow-l000", "tmo-l111", "tco-l010", "tsw-l110", "tas-l000") if tier == "quick" else list(Q.keys())
     for k in ks:
         plan += shards(Q[k], fl, ["--mode", "fault", "--level", lvl] + mon, 3 if tier == "quick" else 6)
         plan.append(hist_run(Q[k], fl, ["--mode", "random", "--focus", "alloc", "--cases", 400 if tier == "quick" else 5000, "--len", 60, "--seed", seed] + mon))
